@@ -114,6 +114,12 @@ def run_suite(ctx, pid, which, n_quick, n_thorough):
         res.mismatches.append(dict(suite='client-history', case=dict(client=r.kind, connect_disconnects=r.connect_disconnects, disconnect_disconnects=r.disconnect_disconnects, ops=r.log), impl=r.outs,
                                    model=chist.explain(r) if len(res.mismatches) < 2 else '(not shown)'))
     res.traces = len(runners)
+    if 'c08' in which:
+        imp, errs2 = chist.impolite(runners)
+        res.errors += errs2
+        res.notes.append('%d of %d histories satisfy the hypothesis of c08_lifecycle_alternates (no connect() while another one waits for its handshake)' % (len(runners) - len(imp), len(runners)))
+        res.dist['hypothesis-of-the-theorem:holds'] += len(runners) - len(imp)
+        res.dist['hypothesis-of-the-theorem:fails'] += len(imp)
     return res
 
 
